@@ -274,5 +274,6 @@ def run(chk):
     check_minimum_tables(chk, F, P, "R02.2", which=("minimum_mall", "minimum"))
     check_combine(chk, F, P, "R02.2")
     check_forwarding(chk, F)
+    c01.check_has_sig(chk, F, P, rid="R02.6")
     n = modes.check_modes(chk, F, "R02.5", MODE_FILES)
     chk.floor("R02.5", "mode-specific call sites", n, 70)
